@@ -53,11 +53,11 @@ let run (path : string) =
   let pgs : Gauge.gauge list ref = ref [] and pxs : (int * Gauge.ext) list ref = ref [] and pbs : (int * BinNums.coq_Z) list ref = ref [] in
   (* the step being read *)
   let op : string list ref = ref [] in
-  let farm = Hashtbl.create 8 and calc = Hashtbl.create 8 and recv = Hashtbl.create 8 and xenv = Hashtbl.create 8 and lenv = Hashtbl.create 8 in
+  let farm = Hashtbl.create 8 and calc = Hashtbl.create 8 and recv = Hashtbl.create 8 and xenv = Hashtbl.create 8 and lenv = Hashtbl.create 8 and halt = Hashtbl.create 8 in
   let res = ref "" and pays : (string * string * string) list ref = ref [] and split : string list option ref = ref None in
   let gs : (int * Gauge.gauge) list ref = ref [] and es : Gauge.epoch list ref = ref [] and xs : (int * Gauge.ext) list ref = ref [] in
   let bs : (int * BinNums.coq_Z) list ref = ref [] in
-  let reset_step () = op := []; Hashtbl.reset farm; Hashtbl.reset calc; Hashtbl.reset recv; Hashtbl.reset xenv; Hashtbl.reset lenv; res := ""; pays := [];
+  let reset_step () = op := []; Hashtbl.reset farm; Hashtbl.reset calc; Hashtbl.reset recv; Hashtbl.reset xenv; Hashtbl.reset lenv; Hashtbl.reset halt; res := ""; pays := [];
     split := None; gs := []; es := []; xs := []; bs := [] in
   let end_case () =
     if !case <> "" then begin
@@ -130,14 +130,17 @@ let run (path : string) =
        let farms = L.init ng fenv in
        let recvs = L.init ng (fun i -> match (try Hashtbl.find recv i with Not_found -> ["err"]) with
            | "ok" :: a :: _ -> Base.Ok (zs a) | "panic" :: _ -> Base.Panic | _ -> Base.Err (zi 1)) in
+       let halted i = (try Hashtbl.find halt i with Not_found -> false) in
+       L.iteri (fun i (x : Gauge.ext) -> if halted i then bump ("halt:kind" ^ sz x.Gauge.x_kind)) m.Gauge.r_exts;
        let xenvs = L.init nx (fun i -> match (try Hashtbl.find xenv i with Not_found -> ["0"; "0"]) with
            | tot :: n :: rest -> let (g3, _) = groups 3 (int_of_string n) rest in
-             { Gauge.xe_total = zs tot; xe_pop = L.map (function [a; net; cr] -> ((zs a, zs net), zs cr) | _ -> failwith "xenv") g3 }
+             { Gauge.xe_total = zs tot; xe_pop = L.map (function [a; net; cr] -> ((zs a, zs net), zs cr) | _ -> failwith "xenv") g3;
+               xe_halt = halted i }
            | _ -> failwith "xenv line") in
        let lenvs = L.init nx (fun i -> match (try Hashtbl.find lenv i with Not_found -> ["0"; "0"; "noprice"]) with
            | ok :: n :: rest -> let (g2, rest') = groups 2 (int_of_string n) rest in
              { Gauge.le_ok = bool_of_tok ok; le_new = L.map (function [a; v] -> (zs a, zs v) | _ -> failwith "lenv") g2;
-               le_price = (match rest' with "price" :: twa :: dec :: _ -> Some (zs twa, zs dec) | _ -> None) }
+               le_price = (match rest' with "price" :: twa :: dec :: _ -> Some (zs twa, zs dec) | _ -> None); le_halt = halted i }
            | _ -> failwith "lenv line") in
        let benv = { Gauge.be_farm = farms; be_recv = recvs; be_ext = xenvs; be_lend = lenvs } in
        let o = Gauge.Begin (now, benv) in
@@ -201,7 +204,19 @@ let run (path : string) =
           if s1 && due 0 then bump (if s2 then "hook:locker-step:kept" else "hook:locker-step:rolled-back");
           if s1 && due 1 then bump (if s3 then "hook:vault-step:kept" else "hook:vault-step:rolled-back");
           if s1 && due 2 then bump (if s4 then "hook:lend-step:kept" else "hook:lend-step:rolled-back");
-          if s1 && not (s2 && s3 && s4) then bump "hook:some-program-step-rolled-back:others-kept"
+          if s1 && not (s2 && s3 && s4) then bump "hook:some-program-step-rolled-back:others-kept";
+          (* an error return AFTER programs before it were processed: a due program precedes the first halted one *)
+          let partial k =
+            let rec go i seen_due = function
+              | [] -> false
+              | (x : Gauge.ext) :: rest ->
+                if not (BinInt.Z.eqb x.Gauge.x_kind (zi k)) then go (i + 1) seen_due rest
+                else if halted i then seen_due
+                else go (i + 1) (seen_due || (x.Gauge.x_active && BinInt.Z.ltb x.Gauge.x_next now)) rest in
+            go 0 false m.Gauge.r_exts in
+          if s1 && not s2 && partial 0 then bump "hook:locker-step:error-after-earlier-program-processed:rolled-back";
+          if s1 && not s3 && partial 1 then bump "hook:vault-step:error-after-earlier-program-processed:rolled-back";
+          if s1 && not s4 && partial 2 then bump "hook:lend-step:error-after-earlier-program-processed:rolled-back"
         | _ -> ());
        (match r with
         | Base.Ok (s', dp) ->
@@ -260,6 +275,7 @@ let run (path : string) =
       | "recv" :: i :: rest -> Hashtbl.replace recv (int_of_string i) rest; Buffer.add_string sig_ line
       | "xenv" :: i :: rest -> Hashtbl.replace xenv (int_of_string i) rest; Buffer.add_string sig_ line
       | "lenv" :: i :: rest -> Hashtbl.replace lenv (int_of_string i) rest; Buffer.add_string sig_ line
+      | "halt" :: i :: b :: _ -> Hashtbl.replace halt (int_of_string i) (bool_of_tok b); Buffer.add_string sig_ line
       | "res" :: c :: _ -> res := c
       | "pay" :: d :: a :: v :: _ -> pays := (d, a, v) :: !pays
       | "split" :: rest -> split := Some rest
